@@ -30,6 +30,7 @@ func init() {
 		defer s.Close(dir, "totality")
 		// end-of-block processing is not halted by what ordinary transactions can leave behind (the same scenario as C07's)
 		monModuleAccountRecipient(s, "mon.c17.endblock-not-halted")
+		monConcurrentValidation(s, "c17")
 		c, err := NewChain(memDB(), tmpHome(), nil, 0, nil)
 		if err != nil {
 			panic(err)
